@@ -2,7 +2,8 @@ import re
 
 import vf
 
-FILES = ["search/zz_verif_c19_test.go", "search/zz_verif_c19race_test.go", "search/zz_verif_c19watch_test.go"]
+FILES = ["search/zz_verif_c19_test.go", "search/zz_verif_c19race_test.go", "search/zz_verif_c19watch_test.go",
+         "search/zz_verif_c19held_test.go"]
 SPEC = dict(
     level="proof",
     harness=dict(pkg_dir="search", run="TestVerifC19$", files=FILES, n_quick=40, n_thorough=400),
